@@ -121,8 +121,8 @@ def body_chains(sel: int) -> bool:
     tables, text = build(codes, twin, defmode)
     p = parse(text)
     sets = ALL_SETS if os.environ.get("VERIF_TIER") == "thorough" else [ALL_SETS[(sel * 7 + k * 9) % len(ALL_SETS)] for k in range(8)]
-    for mi, m in enumerate(P + ["D*-"]):
-        if m == "D*-" and m not in tables:
+    for mi, m in enumerate(P + ["D*-", "Xi_c0", "Orig3"]):
+        if m in ("D*-", "Xi_c0", "Orig3") and m not in tables:
             continue
         if m not in tables:
             for S in ([], [P[0]]):
@@ -179,8 +179,8 @@ def body_expand(sel: int) -> bool:
             p.build_decay_chains(P[0], stable_particles=[P[1], P[2], P[4]])
         if P[1] in tables:
             p.build_decay_chains(P[1], stable_particles=(P[3],))
-    for m in P + ["D*-"]:
-        if m == "D*-" and m not in tables:
+    for m in P + ["D*-", "Xi_c0", "Orig3"]:
+        if m in ("D*-", "Xi_c0", "Orig3") and m not in tables:
             continue
         if m not in tables:
             try:
